@@ -132,6 +132,17 @@ CHECKS = {
         note='Finite-choice throughout (leverage about 1): the solver contributes the unbounded pattern-equivalence '
              'lemmas, the histories are enumerated. Trusted: z3, rx/translate.py, the three-line content model.',
         design='3 C14'),
+    'C17': dict(
+        text='Step harness on the real MediaList / MediaQuery code: pre-state built from up to K menu items with every '
+             'letter of the media types in symbolic case (solver variables) and an optional leading comment, stand-alone '
+             'or owned by @media / @import; one operation (appendMedium, deleteMedium, item assignment, mediaText '
+             'assignment) with a symbolic-case or invalid argument; the result is compared with a reference ordered-set '
+             'model and with itself (mediaText reparses to an equal list; length, item(i) and iteration agree). Media '
+             'queries from eight grammar shapes with symbolic digits survive parse/serialise/parse; one malformed member '
+             'must invalidate the list.',
+        note='Item choice is finite (solver-driven enumeration); letter case and digits are solver-quantified. Trusted: '
+             'z3, the reference model in harness/c17.py.',
+        design='3 C17'),
     'C18': dict(
         text='Bounded symbolic model checking of value normalisation on the real code: every decimal literal up to '
              'the digit bound (each digit a solver variable; sign, presence of integer/fraction part and unit by '
